@@ -534,7 +534,9 @@ pub (crate) fn bid128_from_string(str: &str, rnd_mode: RoundingMode, pfpsf: &mut
                 CX.w[1] += 1;
             }
         }
-        res = bid_get_BID128(sign_x, dec_expon, &CX, rnd_mode, pfpsf);
+        let mut local_fpsf: _IDEC_flags = StatusFlags::BID_EXACT_STATUS;
+        res = bid_get_BID128(sign_x, dec_expon, &CX, rnd_mode, &mut local_fpsf);
+        *pfpsf |= local_fpsf;
         return res;
     } else {
         // simply round using the digits that were read
@@ -629,7 +631,9 @@ pub (crate) fn bid128_from_string(str: &str, rnd_mode: RoundingMode, pfpsf: &mut
         __set_status_flags(pfpsf, StatusFlags::BID_INEXACT_EXCEPTION);
     }
 
-    res = bid_get_BID128(sign_x, dec_expon, &CX, rnd_mode, pfpsf);
+    let mut local_fpsf: _IDEC_flags = if set_inexact { StatusFlags::BID_INEXACT_EXCEPTION } else { StatusFlags::BID_EXACT_STATUS };
+    res = bid_get_BID128(sign_x, dec_expon, &CX, rnd_mode, &mut local_fpsf);
+    *pfpsf |= local_fpsf;
 
     res
 }
